@@ -70,9 +70,22 @@ Definition brace_step (acc c : Z) : Z :=
 Fixpoint brace_count (s : list Z) (acc : Z) : Z :=
   match s with [] => acc | c :: t => brace_count t (brace_step acc c) end.
 
-(* colvarparse::check_braces(conf, start_pos) == COLVARS_OK *)
-Definition check_braces (conf : list Z) (start : nat) : bool :=
+(* check_braces as pinned: only the numbers of '{' and '}' were compared (kept for the record) *)
+Definition check_braces_pinned (conf : list Z) (start : nat) : bool :=
   brace_count (skipn start conf) 0 =? 0.
+
+(* the loop of check_braces after the repair: the count must never become negative and must end at 0;
+   d is the current brace_count *)
+Fixpoint braces_ok (s : list Z) (d : nat) : bool :=
+  match s with
+  | [] => (d =? 0)%nat
+  | c :: t => if c =? LBRACE then braces_ok t (S d)
+              else if c =? RBRACE then match d with O => false | S d' => braces_ok t d' end
+              else braces_ok t d
+  end.
+
+(* colvarparse::check_braces(conf, start_pos) == COLVARS_OK *)
+Definition check_braces (conf : list Z) (start : nat) : bool := braces_ok (skipn start conf) O.
 
 (* ---------------------------------------------------------------- lines, comments (read_config_string) *)
 
@@ -107,8 +120,7 @@ Definition strip_comments (s : list Z) : list Z := flat_map keep_line (split_lin
 
 Inductive kl_reg :=
 | RegNone                        (* nothing pushed to data_begin_pos / data_end_pos *)
-| Reg (b e : nat)
-| RegAnomaly.                    (* conf.find(data, ...) == npos pushed (never for keywords, see proofs) *)
+| Reg (b e : nat).               (* [b, e): where the value sits in conf *)
 
 Inductive kl_result :=
 | KL_notfound
@@ -190,10 +202,15 @@ Fixpoint brace_loop (fuel : nat) (conf line : list Z) (line_end last : nat) (cou
       brace_loop f conf (line ++ substr conf lb (le - lb)) le last' count'
   end.
 
-Definition mk_reg (conf data : list Z) (from : nat) : kl_reg :=
+(* data_begin_pos / data_end_pos: line_start + data_begin, + data->size()
+   (the pinned code pushed conf.find(data, pos+key.size()), which can point at earlier text: mk_reg_pinned) *)
+Definition mk_reg (data : list Z) (start : nat) : kl_reg :=
+  match data with [] => RegNone | _ => Reg start (start + length data) end.
+
+Definition mk_reg_pinned (conf data : list Z) (from : nat) : option kl_reg :=
   match data with
-  | [] => RegNone
-  | _ => match find_sub conf data from with Some b => Reg b (b + length data) | None => RegAnomaly end
+  | [] => Some RegNone
+  | _ => match find_sub conf data from with Some b => Some (Reg b (b + length data)) | None => None end
   end.
 
 (* the part of key_lookup after the keyword has been found at pos *)
@@ -210,7 +227,7 @@ Definition extract_value (fuel : nat) (conf key : list Z) (pos : nat) : kl_resul
     match find_if (fun c => c =? LBRACE) line db with
     | None =>
       let data := if (db <? de)%nat then substr line db (de - db) else [] in
-      KL_found pos data line_end (mk_reg conf data (pos + klen))
+      KL_found pos data line_end (mk_reg data (line_begin + db))
     | Some br =>
       match brace_loop fuel conf line line_end br 1 with
       | BOutOfFuel => KL_outoffuel
@@ -222,7 +239,7 @@ Definition extract_value (fuel : nat) (conf key : list Z) (pos : nat) : kl_resul
                      | Some (S k) => k | _ => length line' end in
         let de' := match rfind_if (fun c => negb (is_ws c)) line' lastb with Some k => S k | None => O end in
         let data := if (db' <? de')%nat then substr line' db' (de' - db') else [] in
-        KL_found pos data line_end' (mk_reg conf data (pos + klen))
+        KL_found pos data line_end' (mk_reg data (line_begin + db'))
       end
     end
   end.
@@ -448,6 +465,22 @@ Definition bool_value (data : list Z) : sres (A := bool) :=
 
 (* ---------------------------------------------------------------- strip_values / check_keywords *)
 
+(* position i of conf belongs to a registered value *)
+Definition covered (rs : list kl_reg) (i : nat) : bool :=
+  existsb (fun r => match r with Reg b e => (b <=? i)%nat && (i <? e)%nat | RegNone => false end) rs.
+
+Fixpoint strip_from (rs : list kl_reg) (s : list Z) (i : nat) : list Z :=
+  match s with
+  | [] => []
+  | c :: t => if covered rs i then strip_from rs t (S i) else c :: strip_from rs t (S i)
+  end.
+
+(* strip_values after the repair: the characters of all registered values are dropped (ranges may repeat, nest,
+   overlap or reach beyond the end) *)
+Definition strip_values (conf : list Z) (rs : list kl_reg) : list Z := strip_from rs conf O.
+
+(* strip_values as pinned (kept for the record): begin and end positions sorted and uniqued SEPARATELY, then paired;
+   conf.erase(pos, n) throws std::out_of_range when pos > size (None) *)
 Fixpoint insert_sorted (x : nat) (l : list nat) : list nat :=
   match l with [] => [x] | y :: t => if (x <=? y)%nat then x :: l else y :: insert_sorted x t end.
 Definition sort_nat (l : list nat) : list nat := fold_right insert_sorted [] l.
@@ -456,12 +489,8 @@ Fixpoint uniq_adj (l : list nat) : list nat :=
   | [] => []
   | x :: t => match t with [] => [x] | y :: _ => if (x =? y)%nat then uniq_adj t else x :: uniq_adj t end
   end.
-
-(* conf.erase(pos, n): throws std::out_of_range when pos > size *)
 Definition erase (s : list Z) (pos n : nat) : option (list Z) :=
   if (length s <? pos)%nat then None else Some (firstn pos s ++ skipn (pos + n) s).
-
-(* the for loop of strip_values; size_t subtraction wraps, and a wrapped position is > size: None *)
 Fixpoint strip_loop (s : list Z) (bs es : list nat) (offset : nat) : option (list Z) :=
   match bs, es with
   | b :: bs', e :: es' =>
@@ -472,13 +501,11 @@ Fixpoint strip_loop (s : list Z) (bs es : list nat) (offset : nat) : option (lis
          end
   | _, _ => Some s
   end.
-
 Definition reg_begins (rs : list kl_reg) : list nat :=
   flat_map (fun r => match r with Reg b _ => [b] | _ => [] end) rs.
 Definition reg_ends (rs : list kl_reg) : list nat :=
   flat_map (fun r => match r with Reg _ e => [e] | _ => [] end) rs.
-
-Definition strip_values (conf : list Z) (rs : list kl_reg) : option (list Z) :=
+Definition strip_values_pinned (conf : list Z) (rs : list kl_reg) : option (list Z) :=
   strip_loop conf (uniq_adj (sort_nat (reg_begins rs))) (uniq_adj (sort_nat (reg_ends rs))) O.
 
 (* `line_is >> uk` *)
@@ -497,14 +524,10 @@ Definition line_ok (allowed : list (list Z)) (l : list Z) : bool :=
 Definition check_lines (allowed : list (list Z)) (stripped : list Z) : bool :=
   forallb (line_ok allowed) (split_lines stripped).
 
-Inductive ck_result := CK_ok | CK_unknown_keyword | CK_anomaly.
+Inductive ck_result := CK_ok | CK_unknown_keyword.
 
 Definition check_keywords (allowed : list (list Z)) (conf : list Z) (rs : list kl_reg) : ck_result :=
-  if existsb (fun r => match r with RegAnomaly => true | _ => false end) rs then CK_anomaly
-  else match strip_values conf rs with
-       | None => CK_anomaly
-       | Some s => if check_lines allowed s then CK_ok else CK_unknown_keyword
-       end.
+  if check_lines allowed (strip_values conf rs) then CK_ok else CK_unknown_keyword.
 
 (* ---------------------------------------------------------------- a generic client: flat schema *)
 
@@ -562,7 +585,6 @@ Definition get_keyval (strict : bool) (conf : list Z) (st : pstate) (kk : list Z
 Inductive presult :=
 | PAccept (vs : list value)
 | PReject                        (* an error bit is set: the configuration is refused *)
-| PAnomaly                       (* a C++ exception / out-of-range the code does not handle *)
 | POutOfFuel.
 
 (* look up every keyword of the schema in conf (get_keyval), then check_keywords *)
@@ -571,7 +593,6 @@ Definition parse_flat (strict : bool) (schema : list (list Z * kind)) (conf : li
               {| ps_allowed := []; ps_regs := []; ps_err := false; ps_oof := false; ps_values := [] |} in
   if ps_oof st then POutOfFuel
   else match check_keywords (ps_allowed st) conf (ps_regs st) with
-       | CK_anomaly => PAnomaly
        | CK_unknown_keyword => PReject
        | CK_ok => if ps_err st then PReject else PAccept (ps_values st)
        end.
